@@ -366,6 +366,15 @@ func (c *Ctx) reachingStore(al *ssa.Alloc, ld *ssa.UnOp, ldCtx *Ctx) (ssa.Value,
 			return nil, nil
 		}
 	}
+	// a store earlier in the same block wins (defer-spilled results: `*r = v; rundefers; return *r`)
+	if at.Block() != nil {
+		idx := instrIndex(at)
+		for i := idx - 1; i >= 0; i-- {
+			if st, ok := at.Block().Instrs[i].(*ssa.Store); ok && st.Addr == ssa.Value(al) {
+				return st.Val, c
+			}
+		}
+	}
 	// choose the latest store that dominates `at`, provided every store dominates `at`.
 	var best *ssa.Store
 	for _, st := range stores {
